@@ -435,6 +435,10 @@ func genFit(c *hc.Ctx) {
 		}
 		// the text the Text object says it holds is what its lines show (plus dropped line-edge characters)
 		emitConserveKind(c, t.Text, lines, "conserve-cut")
+		// ... and all of the input when nothing was cut
+		if len(lines) == len(p.breaks) && t.Text != lc.log() {
+			c.Fail("fit-text-not-whole", fmt.Sprintf("all %d lines fit but Text.Text is %q", len(lines), t.Text), rp)
+		}
 		if lc.valign == canvas.Top {
 			for li, ln := range lines {
 				if ln.y+m.Descent > lc.height+1e-9*(1+lc.height) {
